@@ -594,7 +594,9 @@ impl Scenario for EarlyStop {
          (offset-to-next out of range) at a random packet. Every run under a seeded non-canonical schedule in 4/5 of \
          the cases, queue capacities capped to 1..8 in half of them (full queues), starvation policies included. \
          Oracle: no panic, no deadlock, every managed thread finished within the step budget (50 x reference + 5000), \
-         exit status in the allowed set, partial -o file = whole packets and a prefix of the expected filtered data. \
+         exit status in the allowed set, partial -o file = whole packets and a prefix of the expected filtered data; \
+         after the first failed write to stdout at most 8 further writes to it are attempted (at most 4 on the \
+         unchanged tree). A quarter of the check / view command lines carry an (ignored) -o. \
          Non-trivial: >= 3 managed threads. Distinct: (input hash, reference trace hash)."
             .into()
     }
@@ -647,7 +649,8 @@ impl Scenario for EarlyStop {
                     corrupt::corrupt_stream(&mut st, &mut rng);
                 }
                 let f = pick_filter(&st, &mut rng);
-                match rng.below(5) {
+                // (with many batches: mostly the views, so that many batches are printed after the failure)
+                match if many_batches && rng.chance(2, 3) { 0 } else { rng.below(5) } {
                     0 | 1 => {
                         let v = VIEW_MODES[rng.usize_below(3)];
                         parts = s(v);
@@ -730,6 +733,23 @@ impl Scenario for EarlyStop {
             label = "stop-event | write file".to_string();
             exit_code = None;
             extras = CmdExtras { stats_ext: "json".into(), ..Default::default() };
+        }
+        if parts.iter().any(|a| a == "check" || a == "view") && !parts.iter().any(|a| a == "-o") && rng.chance(1, 4) {
+            // an output destination next to a check or view is accepted with a warning and ignored
+            // (global option: before the subcommand)
+            let at = parts.iter().position(|a| a == "check" || a == "view").unwrap_or(0);
+            parts.insert(at, "@OUT@".into());
+            parts.insert(at, "-o".into());
+            // -o requires a filter option, given before the subcommand like -o itself
+            let fpos = parts.iter().position(|a| ["-f", "-F", "-s"].contains(&a.as_str()));
+            let fargs: Vec<String> = match fpos {
+                Some(i) => parts.drain(i..i + 2).collect(),
+                None => Filter::Link(st.links[rng.usize_below(st.links.len())].link_id).args(),
+            };
+            for (k, a) in fargs.into_iter().enumerate() {
+                parts.insert(at + k, a);
+            }
+            label.push_str(" +ignored -o");
         }
         let input = st.bytes();
         let im = pick_input_mode(&mut rng);
